@@ -58,3 +58,43 @@ fn checked_sub_complete() {
         None => assert!(underflow),
     }
 }
+
+// ---- C13: PaymentQuote::has_expired against the clock (now stubbed to a symbolic instant)
+use crate::data_payments::{PaymentQuote, QUOTE_EXPIRATION_SECS};
+use std::time::{Duration, SystemTime};
+
+static mut NOW_SECS: u64 = 0;
+static mut NOW_NANOS: u32 = 0;
+fn now_stub() -> SystemTime {
+    unsafe { SystemTime::UNIX_EPOCH + Duration::new(NOW_SECS, NOW_NANOS) }
+}
+
+/// C13-T3 (complete over every clock reading and every quote timestamp below 2^40 s, nanosecond resolution): a quote is
+/// expired exactly when it is from the future or its age in whole seconds exceeds the limit
+#[kani::proof]
+#[kani::stub(std::time::SystemTime::now, now_stub)]
+fn has_expired_complete() {
+    let now_s: u64 = kani::any();
+    let now_n: u32 = kani::any();
+    let q_s: u64 = kani::any();
+    let q_n: u32 = kani::any();
+    kani::assume(now_s < (1u64 << 40) && q_s < (1u64 << 40) && now_n < 1_000_000_000 && q_n < 1_000_000_000);
+    unsafe { NOW_SECS = now_s; NOW_NANOS = now_n; }
+    let q = PaymentQuote {
+        content: Default::default(),
+        timestamp: SystemTime::UNIX_EPOCH + Duration::new(q_s, q_n),
+        quoting_metrics: Default::default(),
+        rewards_address: crate::RewardsAddress::ZERO,
+        pub_key: vec![],
+        signature: vec![],
+    };
+    let r = q.has_expired();
+    let later = q_s > now_s || (q_s == now_s && q_n > now_n);
+    if later {
+        assert!(r);
+    } else {
+        // whole seconds elapsed (the sub-second part borrows one second when needed): no division involved
+        let age_s = now_s - q_s - if now_n < q_n { 1 } else { 0 };
+        assert!(r == (age_s > QUOTE_EXPIRATION_SECS));
+    }
+}
